@@ -178,7 +178,7 @@ func main() {
 	for _, w := range witnessHistories() {
 		jobs = append(jobs, job{h: w.h, backend: w.backend, only: &w.cp})
 	}
-	nHist := r.Pick(18, 200)
+	nHist := r.Pick(12, 200)
 	for i := 0; i < nHist; i++ {
 		rng := r.Rand(7, uint64(i))
 		cfg := ndblab.GenConfig{Versions: 5, MaxLag: 2, Restore: i%3 != 2, Small: true, Clean: i%3 != 1}
